@@ -4,7 +4,7 @@ MC  : History.tla (process state = weight cache, equivalence-id memo, address ma
       caller-owned buffer the model arrives in; Compile(letter) for the entry points main / convert /
       convert_bytes with the clearing each of them really does; a letter = entry point x (model, options) x
       container).  History_MC.cfg (Policy "as_is", a reader that keeps views of the caller's buffer) is explored
-      exhaustively for all histories of length <= 3 over a 26-letter alphabet and prints, per history, through
+      exhaustively for all histories of length <= 3 over a 30-letter alphabet and prints, per history, through
       which door each step can read earlier state: that is the replay plan.  Controls: as_is violates
       HistoryIndependent and NoFailureFromHistory (the design permits the leaks), Policy "clear_at_entry"
       satisfies all invariants, without the reseeding of the RNG it does not, clearing only the caches at entry
@@ -29,7 +29,7 @@ import subprocess
 import time
 from concurrent.futures import ThreadPoolExecutor
 
-from .. import codec, corpus, netgen, tlc, vela_run
+from .. import codec, corners, corpus, netgen, tlc, vela_run
 from .. import common
 from ..common import Run, MachineryError, PY, REPO, seed
 
@@ -40,6 +40,9 @@ PROPS = ("HistoryIndependent", "NoFailureFromHistory", "HashSeedIndependent", "E
 CONTAINERS = ("file", "ba", "shared", "mvrw", "mvro")
 DDB = ["--enable-debug-db"]
 DBG = ["--enable-debug-db", "--verbose-performance"]
+LOWREC = ["--recursion-limit", "1000"]      # the interpreter's own default: a valid value, fine for shallow networks
+DEEP_DEPTH = 450            # operators in a row in the deep network (vacuity control: must not compile under LOWREC)
+NEEDS = {"deepA": ["rec"]}  # interpreter-wide settings a model needs (History.tla Needs)
 CAP_PER_GROUP = 6          # replay files written per (property, signature); every class is listed in the evidence
 
 
@@ -104,11 +107,13 @@ def alphabet(sd, hc_seed=HC_CANDIDATES[0]):
         return n.desc([n.pad(n.conv(x, 8, 3), [[1, 0], [0, 0], [0, 0], [0, 8]])])
 
     models = {"convA": conv(2 * sd + 1), "meanA": mean(8, 4), "meanB": mean(4, 8),
-              "tanhA": tanh("A"), "tanhB": tanh("B"), "hcA": hc_net(hc_seed), "padNC": pad_nc()}
+              "tanhA": tanh("A"), "tanhB": tanh("B"), "hcA": hc_net(hc_seed), "padNC": pad_nc(),
+              "deepA": corners.deep_net(DEEP_DEPTH, ("add", "pool")[sd % 2], 3 + sd)}
     mos = {m: {"model": m, "args": [], "acc": "ethos-u65-256", "opts": []} for m in models}
     for m in ("convA", "meanA", "tanhA"):
         mos[m + "@u55"] = {"model": m, "args": list(U55), "acc": "ethos-u55-128", "opts": []}
     mos["convA+dbg"] = {"model": "convA", "args": list(DBG), "acc": "ethos-u65-256", "opts": ["ddb"]}
+    mos["convA+rl"] = {"model": "convA", "args": list(LOWREC), "acc": "ethos-u65-256", "opts": ["lowrec"]}
     letters = [(e, mo, "file") for e in ("main", "convert") for mo in models if (e, mo) != ("convert", "padNC")] \
         + [("convert_bytes", mo, "ba") for mo in models if mo != "padNC"] \
         + [("convert_bytes", "padNC", c) for c in ("shared", "mvrw", "mvro")] \
@@ -150,7 +155,10 @@ def model_check(run):
            ("History_CachesOnly_NF.cfg", None, "... and nothing else"),
            ("History_NoCopy_CS.cfg", "CallerStateUntouched", "a reader keeping views must let an in-place rewrite modify the caller's buffer"),
            ("History_NoCopy_HI.cfg", "HistoryIndependent", "... and change the next compilation of the kept buffer"),
-           ("History_NoCopy_CI.cfg", "ContainerIndependent", "... and fail on a read-only container"))
+           ("History_NoCopy_CI.cfg", "ContainerIndependent", "... and fail on a read-only container"),
+           ("History_NoLimit_EP.cfg", "EntryPointIndependent", "an entry point that does not raise the recursion limit itself must "
+                                                               "fail alone on the deep network where the others succeed"),
+           ("History_NoLimit_HI.cfg", "HistoryIndependent", "... and succeed on it after a call that left the limit raised"))
     with ThreadPoolExecutor(len(ctl)) as ex:
         outs = list(ex.map(lambda c: tlc.run("History_MC", c[0], workers=2, timeout=900), ctl))
     for (cfg, want, what), r in zip(ctl, outs):
@@ -160,8 +168,9 @@ def model_check(run):
         run.add_mc("History(%s)" % cfg[8:-4], r)
         controls[cfg] = {"status": r["status"], "violated": r.get("violated"), "states": r["distinct"]}
     # the two new doors must be what these controls trip over, not one of the old ones
-    if "ddb |-> TRUE" not in outs[4]["trace_text"] or "buf |-> TRUE" not in outs[7]["trace_text"]:
-        raise MachineryError("design controls CachesOnly / NoCopy_HI are violated through another door than D / B")
+    if "ddb |-> TRUE" not in outs[4]["trace_text"] or "buf |-> TRUE" not in outs[7]["trace_text"] \
+            or "lim |-> TRUE" not in outs[10]["trace_text"]:
+        raise MachineryError("design controls CachesOnly / NoCopy_HI / NoLimit_HI are violated through another door than D / B / L")
     run.cov["design_controls"] = controls
     return plan
 
@@ -281,13 +290,14 @@ class Replayer:
 def _proj(rec, prev_after):
     if rec is None or rec.get("died"):
         z = {"vk": [], "vks": [], "wk": [], "wks": [], "amb": 0, "ama": 0, "ams": 0, "ddba": 0, "wca": 0, "eqa": 0,
-             "rnga": "", "rngb": "", "observed": False}
+             "rnga": "", "rngb": "", "rla": 0, "enva": "", "envb": "", "observed": False}
         return z
     a = rec["after"]
     return {"vk": rec["keys"]["vk"], "vks": rec["keys"]["vks"], "wk": rec["keys"]["wk"], "wks": rec["keys"]["wks"],
             "amb": prev_after["am_size"] if prev_after else 0, "ama": a["am_size"], "ams": rec["obs"]["am_stale_sets"],
             "ddba": sum(a["ddb"]), "wca": a["wc_size"], "eqa": a["eq_size"], "rnga": a["rng"],
-            "rngb": prev_after["rng"] if prev_after else "", "observed": True}
+            "rngb": prev_after["rng"] if prev_after else "", "rla": a.get("rl", 0), "enva": a.get("envd", ""),
+            "envb": prev_after.get("envd", "") if prev_after else a.get("envd", ""), "observed": True}
 
 
 def build_events(rp, items, tid0, peers_of, iso_of=None):
@@ -316,7 +326,7 @@ def build_events(rp, items, tid0, peers_of, iso_of=None):
             seen = rec is not None and not rec.get("died")
             ev = {"t": t, "i": i + 1, "n": len(h), "e": rp.table[x]["entry"], "mo": rp.table[x]["mo"],
                   "c": rp.table[x]["container"], "mdl": rp.table[x]["mdl"], "opts": rp.table[x]["opts"], "ref": ref,
-                  "acc": rp.table[x]["acc"], "seed": sd, "ok": o["ok"], "exc": o["exc"], "dig": o["dig"], "csv": o["csv"],
+                  "acc": rp.table[x]["acc"], "seed": sd, "needs": rp.table[x].get("needs", []), "ok": o["ok"], "exc": o["exc"], "dig": o["dig"], "csv": o["csv"],
                   "art": o["art"],
                   "iok": iso["ok"], "iexc": iso["exc"], "idig": iso["dig"], "icsv": iso["csv"], "iart": iso["art"],
                   "zok": zo["ok"], "zexc": zo["exc"], "zdig": zo["dig"], "zcsv": zo["csv"], "zart": zo["art"],
@@ -387,7 +397,8 @@ def negative_controls(run, events):
         + mut(7, art=extra, zart=extra) + mut(8, art=other, zart=other) + mut(9, ina="corrupted") \
         + [dict(base[0], t=10, n=1, peers=[{"ok": False, "dig": "", "l": "x"}])] \
         + [dict(base[0], t=11, n=1, peers=[{"ok": True, "dig": base[0]["dig"], "l": "x"}])] \
-        + mut(12, ref="peer", dig="corrupted", zdig="corrupted") + mut(13, zart=other)
+        + mut(12, ref="peer", dig="corrupted", zdig="corrupted") + mut(13, zart=other) \
+        + mut(14, rla=1000) + mut(15, enva="corrupted")
     res2, v = tlc.validate_traces("HistoryTrace", "HistoryTrace.cfg", ctl)
     got = {(x[0], x[2]) for x in v}
     want = {(2, "HistoryIndependent"), (3, "NoFailureFromHistory"), (4, "HashSeedIndependent"), (5, "EntryPointIndependent"),
@@ -395,12 +406,13 @@ def negative_controls(run, events):
             (12, "EntryPointIndependent"), (13, "HashSeedIndependent")}
     missing = want - got
     # controls 2 and 3 also differ from their seed-0 twin (the z fields are the clean ones): that clause fires as well
-    spurious = {g for g in got if g[0] in (1, 6, 11) or (g not in want and g[1] != "HashSeedIndependent")}
+    spurious = {g for g in got if g[0] in (1, 6, 11, 14, 15) or (g not in want and g[1] != "HashSeedIndependent")}
     dl = [p for p in res2["printed"] if p.startswith('<<"DRIFT"')]
     dr = {(x[0], x[2]) for d in dl for x in json.loads(tlc.parse_value(d)[1])}
-    if missing or spurious or (6, "addrmap.cleared") not in dr or (9, "cbuf.written") not in dr:
+    if missing or spurious or (6, "addrmap.cleared") not in dr or (9, "cbuf.written") not in dr \
+            or (14, "env.limit") not in dr or (15, "env.other") not in dr or (1, "env.limit") in dr or (1, "env.other") in dr:
         raise MachineryError("negative control of HistoryTrace failed: missing %s spurious %s drift %s" % (missing, spurious, sorted(dr)))
-    return {"rejected": sorted("%d:%s" % g for g in got), "drift_detected": sorted("%d:%s" % g for g in dr if g[0] in (6, 9))}
+    return {"rejected": sorted("%d:%s" % g for g in got), "drift_detected": sorted("%d:%s" % g for g in dr if g[0] in (6, 9, 14, 15))}
 
 
 # ------------------------------------------------------------------------------------- classification
@@ -480,6 +492,12 @@ def select(plan, letters, tier, rng):
     clean3 = sorted(h for h, p in plan.items() if len(h) == 3 and not any(p["cls"]))
     if set(plan) != set(l1) | set(l2) | set(exposed3) | set(clean3) or len(plan) != len(l1) + len(l2) + len(names) ** 3:
         raise MachineryError("alphabet of History_MC.tla and of the harness differ")
+    if tier == "quick":
+        # a compilation of the deep network costs ten times an ordinary letter: of the pairs that contain it, those with the
+        # other deep letters, with convA through every entry point and with the low-limit command line (all in both orders)
+        deep = {a for a in names if a.split(":")[1] in NEEDS}
+        partner = deep | {a for a in names if a.split(":")[1] in ("convA", "convA+rl")}
+        l2 = [h for h in l2 if not (set(h) & deep) or set(h) <= partner]
     items = [(h, 0) for h in l1 + l2]
     if tier == "quick":
         groups = {}
@@ -616,6 +634,7 @@ def _alphabet_table(mdir, models, mos, letters):
     paths = _write_models(mdir, models)
     return {lname((e, mo, c)): {"entry": e, "model": paths[mos[mo]["model"]], "args": mos[mo]["args"] if e == "main" else [],
                                 "mo": mo, "acc": mos[mo]["acc"], "container": c, "mdl": mos[mo]["model"],
+                                "needs": NEEDS.get(mos[mo]["model"], []),
                                 "opts": mos[mo]["opts"] if e == "main" else []} for e, mo, c in letters}
 
 
@@ -701,7 +720,15 @@ def _main(run, tier):
     if hc is None:
         raise MachineryError("vacuity: no candidate network makes the hill-climb allocator draw random numbers")
     items = select(plan, letters, tier, rng)
-    n_runs = rp.run_all(items) + 2
+    # vacuity: the deep network must really need a raised recursion limit (it must not compile under the interpreter's default)
+    rp.table["probe:deepA+rl"] = dict(rp.table["main:deepA"], args=list(LOWREC), mo="deepA+rl", opts=["lowrec"])
+    rp.run_all([(("probe:deepA+rl",), 0)])
+    probe = outcome(rp.results.pop((("probe:deepA+rl",), 0))["steps"][0])
+    del rp.table["probe:deepA+rl"]
+    if probe["ok"] or "RecursionError" not in probe["exc"]:
+        raise MachineryError("vacuity: the deep network does not need a raised recursion limit (main --recursion-limit 1000: %s)"
+                             % (probe["exc"] or "compiles"))
+    n_runs = rp.run_all(items) + 3
     iso_ok = [x for x in rp.table if outcome(rp.results[((x,), 0)]["steps"][0])["ok"]]
     if len(iso_ok) < len(rp.table):
         bad = sorted(set(rp.table) - set(iso_ok))
@@ -825,8 +852,10 @@ def _main(run, tier):
                             "corpus_steps_on_a_kept_or_viewed_buffer": kept_ok,
                             "corpus_later_steps_writing_debug_db": with_files,
                             "replay_wall_s": round(rp.wall + rp2.wall, 1)}
-    run.cov["rule"] = ("stage 1: histories of length <= 3 over the 26-letter alphabet of History_MC.tla (3 entry points x 6 "
-                       "generated models, main() and convert_bytes on the in-place-rewriting PAD model through a kept bytearray, a "
+    run.cov["rule"] = ("stage 1: histories of length <= 3 over the 30-letter alphabet of History_MC.tla (3 entry points x 7 "
+                       "generated models, one of them a deep chain that needs a raised recursion limit (pairs with it: the deep "
+                       "letters, convA through every entry point and main --recursion-limit 1000, both orders), "
+                       "main() and convert_bytes on the in-place-rewriting PAD model through a kept bytearray, a "
                        "writable and a read-only memoryview, main() on 3 models for ethos-u55-128 and on 1 with "
                        "--enable-debug-db --verbose-performance), all of length <= 2, of length 3 "
                        + ("one per (exposure pattern, entry points, model families) class of the TLC plan (200) plus 40 unexposed"
